@@ -106,8 +106,37 @@ impl<'tcx> Cx<'tcx> {
         }
         if let mir::Const::Unevaluated(u, _) = c.const_ {
             let _ = write!(s, ",\"name\":{}", esc(&self.tcx.def_path_str(u.def)));
-            if u.promoted.is_some() {
+            if let Some(pi) = u.promoted {
                 s.push_str(",\"promoted\":true");
+                // constants appearing inside the promoted body (e.g. the `"start"` behind a `&&str`)
+                let pm = self.tcx.promoted_mir(u.def);
+                if let Some(pb) = pm.get(pi) {
+                    let mut inner = Vec::new();
+                    for bb in pb.basic_blocks.iter() {
+                        for st in &bb.statements {
+                            if let StatementKind::Assign(b) = &st.kind {
+                                match &b.1 {
+                                    Rvalue::Use(Operand::Constant(c2), _) => {
+                                        if !matches!(c2.const_, mir::Const::Unevaluated(uu, _) if uu.promoted.is_some()) {
+                                            inner.push(self.constant(owner, c2));
+                                        }
+                                    }
+                                    Rvalue::Aggregate(_, ops) => {
+                                        for o in ops.iter() {
+                                            if let Operand::Constant(c2) = o {
+                                                if !matches!(c2.const_, mir::Const::Unevaluated(uu, _) if uu.promoted.is_some()) {
+                                                    inner.push(self.constant(owner, c2));
+                                                }
+                                            }
+                                        }
+                                    }
+                                    _ => {}
+                                }
+                            }
+                        }
+                    }
+                    let _ = write!(s, ",\"promoted_consts\":[{}]", inner.join(","));
+                }
             }
         }
         let env = ty::TypingEnv::post_analysis(self.tcx, owner);
